@@ -20,6 +20,7 @@ CONSTANTS Kinds, Ids,          \* resources are (kind, id)
           Cached,              \* set of cached kinds
           MaxWrites, MaxFaults,
           Alt,                 \* Alt[c] = inputs controller c switches to by UpdateInputs ({} = it never does)
+          Noops,               \* TRUE: the environment may send batches that carry nothing (bookmarks)
           MapTo(_, _)          \* mapper of queue controllers: (kind, id) of a mapped input -> set of primary [k, id]
 
 NoId == 0
@@ -95,6 +96,16 @@ WatcherBatch(k) ==
   /\ bsent' = [bsent EXCEPT ![k] = TRUE]
   /\ wpend' = [wpend EXCEPT ![k] = <<>>]
   /\ UNCHANGED <<store, nw, ddpc, ddev, mloc, m, dlpc, dlkey, cache, boot, started, alt, ech, cpc, robs, queue, qpc, qitem, qobs, need, faults>>
+
+(* a batch that carries nothing to notify about (the bookmark a watch sends when it is established: a controller registered, *)
+(* or UpdateInputs added an input of a kind not watched before).  An action of the environment: it is not part of Internal,   *)
+(* so it neither keeps the system from being quiescent nor is it needed for progress                                          *)
+WatcherNoop(k) ==
+  /\ Noops /\ Len(watchCh) < 3
+  /\ \A i \in 1..Len(watchCh) : watchCh[i].evs # <<>> \/ watchCh[i].bootstrap    \* at most one such batch in flight (bounds the model)
+  /\ \E key \in Keys : m[key] # None                                            \* (an empty batch while the map is empty changes nothing)
+  /\ watchCh' = Append(watchCh, [k |-> k, evs |-> <<>>, bootstrap |-> FALSE])
+  /\ UNCHANGED <<store, nw, wpend, ddpc, ddev, mloc, m, dlpc, dlkey, cache, boot, bsent, started, alt, ech, cpc, robs, queue, qpc, qitem, qobs, need, faults>>
 
 (* ---------------------------------------------------------------- dedup *)
 RECURSIVE ApplyM(_, _), ApplyC(_, _)
@@ -189,7 +200,7 @@ StartLate(c) ==
 Internal == \/ \E k \in Kinds : WatcherBatch(k)
             \/ DDTake \/ DDAcquire \/ DDDrain \/ DLTake \/ DLReturn \/ DLTrigger
             \/ \E c \in Ctrls : CWake(c) \/ CRead(c) \/ CUpdate(c) \/ CFail(c) \/ QGet(c) \/ QRun(c) \/ QFail(c) \/ StartLate(c)
-Next == Internal \/ \E key \in Keys : Write(key)
+Next == Internal \/ (\E key \in Keys : Write(key)) \/ (\E k \in Kinds : WatcherNoop(k))
 Spec == Init /\ [][Next]_vars
 
 -----------------------------------------------------------------------------
